@@ -112,7 +112,7 @@ class Evaluator(object):
                non-positive real part (division, powers, tan/sec/cot/csc/coth/csch ...),
     ``big``  = {name: largest |Re argument|} for tanh / coth,
     ``regimes`` = neg entries as '<op>:neg' (and '<op>:mixed' when the real parts of the two
-               components have opposite signs or one is zero) plus 'tanh:over300', 'arcsinh:neg' (argument with a
+               components have opposite signs or one is zero) plus '<op>:huge' / '<op>:tiny' (modulus beyond 1e+-150), 'tanh:over300', 'arcsinh:neg' (argument with a
                negative real part), 'log1p:re<-0.5'  (used to classify findings only),
     ``kappa``= largest M/m of a quantity that is inverted or whose logarithm is taken."""
 
@@ -128,6 +128,10 @@ class Evaluator(object):
         if u.m == 0:
             raise IdemDomainError('%s of a zero component' % what)
         self.kappa = max(self.kappa, u.M / u.m)
+        if u.M > 1e150:
+            self.regimes.add(what + ':huge')          # |u|^2 overflows in the class's complex modulus
+        if u.m < 1e-150:
+            self.regimes.add(what + ':tiny')
         if min(mp.re(u.a), mp.re(u.b)) <= 0:
             self.neg.add(what)
             self.regimes.add(what + ':neg')
